@@ -239,6 +239,29 @@ theorem C10_stripped_full_false : ¬ C10_stripped_full := fun h => by
 
 example : ∀ x ∈ visitedIdents .arg caseQuery, doubleQual n!"int1" x.1 x.2.1 = false := by decide
 
+-- [review] non-vacuity of `C10_partial_pushdown`: `select int1.t.x from INT1.s join int1.t on int1.t.id = s.id` has no
+-- skipped non-leaf slot and IS pushed down whole, so the theorem's conclusion applies to it (all its tables belong to int1)
+def reviewJoinQuery : Node :=
+  .scope (.sel true) (.cons .tbl (.plain (.cons .tbl (.ident [n!"INT1", n!"s"] false none)
+      (.cons .tbl (.ident [n!"int1", n!"t"] false none)
+        (.cons .arg (.plain (.cons .arg (.ident [n!"int1", n!"t", n!"id"] false none)
+          (.cons .arg (.ident [n!"s", n!"id"] false none) .nil))) .nil))))
+    (.cons .tgt (.ident [n!"int1", n!"t", n!"x"] false none) .nil))
+
+example : skipLeafOnly reviewJoinQuery = true ∧ (planTop true [] cat2 [] reviewJoinQuery).isSome = true ∧
+    allTables .arg reviewJoinQuery = [[n!"INT1", n!"s"], [n!"int1", n!"t"]] := by decide
+
+example : ∀ parts ∈ allTables .arg reviewJoinQuery, belongs true cat2 [] n!"int1" parts := by
+  cases h : planTop true [] cat2 [] reviewJoinQuery with
+  | none => exact absurd h (by decide)
+  | some steps =>
+    obtain ⟨i, hs, hall⟩ := C10_partial_pushdown true [] cat2 [] reviewJoinQuery steps (by decide) h
+    have hi : i = n!"int1" := by
+      have h2 : (planTop true [] cat2 [] reviewJoinQuery).map (·.map Step.integration) = some [n!"int1"] := by decide
+      rw [h, hs] at h2
+      simpa [Step.integration] using h2
+    rw [← hi]; exact hall
+
 /-! ## T10.4 -/
 
 /-- a trailing all-digit part is kept as the version and the same record is found as without it -/
